@@ -398,6 +398,32 @@ func (vc *VC) callEffect(ci *callInfo, fc *FuncContract) {
 			} else if m == "heap" {
 				post.havocHeap = true
 				post.keepPats = fc.Preserves
+			} else if strings.HasPrefix(m, "map:") {
+				// "map:p": only the entries of the map passed as p change
+				env := vc.calleeEnv(ci, fc, pre, pre)
+				v, isVar := env.vars[m[4:]]
+				mt, isMap := (*types.Map)(nil), false
+				if isVar && v.typ != nil {
+					mt, isMap = v.typ.Underlying().(*types.Map)
+				}
+				if !isMap {
+					post.havocHeap = true
+					post.keepPats = fc.Preserves
+					continue
+				}
+				d, vk := vc.mapKeys(mt)
+				for _, key := range []string{d, vk} {
+					old := pre.get(key)
+					if cur, set := post.vals[key]; set {
+						old = cur
+					}
+					fresh := vc.freshConst("mapmod", sortOfKey(vc.keyMeta(key)))
+					nw := vc.storeT(old, v.term, fresh)
+					if ci.guard != "" {
+						nw = fmt.Sprintf("(ite %s %s %s)", ci.guard, nw, old)
+					}
+					post.set(key, nw)
+				}
 			} else if key, obj, ok := vc.resolveObjMod(m, vc.calleeEnv(ci, fc, pre, pre)); ok {
 				// only this object's field changes
 				old := pre.get(key)
@@ -547,6 +573,11 @@ func (vc *VC) ordinalOf(ins ssa.Instruction, name string) int {
 				n = "send"
 			case *ssa.MapUpdate:
 				n = "mapstore"
+			case *ssa.Store:
+				n = storeSiteName(x)
+				if n == "" {
+					return
+				}
 			default:
 				return
 			}
@@ -574,7 +605,7 @@ func sortOfKey(m keyMeta) string {
 
 // callFrameCheck: when the function under verification declares a frame, every callee effect must lie inside it.
 func (vc *VC) callFrameCheck(ci *callInfo, fc *FuncContract) {
-	if vc.fc == nil || !vc.fc.HasMod || vc.fc.Sweep {
+	if vc.fc == nil || !vc.fc.HasMod || vc.fc.Sweep || vc.fc.TrustedFrame {
 		return
 	}
 	has := func(m string) bool {
@@ -608,6 +639,17 @@ func (vc *VC) callFrameCheck(ci *callInfo, fc *FuncContract) {
 		env := vc.calleeEnv(ci, fc, vc.st, vc.st)
 		for _, m := range fc.Modifies {
 			if has(m) {
+				continue
+			}
+			if strings.HasPrefix(m, "map:") {
+				if v, isVar := env.vars[m[4:]]; isVar && v.typ != nil {
+					if _, isMap := v.typ.Underlying().(*types.Map); isMap {
+						// writing into a map is inside the caller's frame when the map was made by the caller
+						vc.oblige("frame", "call-modifies-map/"+shortName(ci.name), fmt.Sprintf("(> %s %s)", v.term, vc.entryAlloc), vc.fc.allTags(), ci.pos, nil)
+						continue
+					}
+				}
+				bad = append(bad, "callee "+ci.name+" modifies "+m)
 				continue
 			}
 			if key, obj, ok := vc.resolveObjMod(m, env); ok {
